@@ -20,6 +20,9 @@ in the mechanism that implements the property breaks the property for the inputs
       module-level name or import, not a builtin (symtable over the module text) - NameError on every execution
   X7  a local read at a statement that no definition of it reaches (reaching definitions over the function's CFG;
       names with binding forms the CFG does not model are skipped) - UnboundLocalError on every execution
+  X8  a call of a function of the package (self.<method> with no overriding subclass, a nested / module-level / imported
+      package function; undecorated or only inlineCallbacks / staticmethod / classmethod) whose arguments cannot be bound to
+      its parameters (too many / missing / unknown keyword) - TypeError on every execution
 A tiny embedded positive example is analysed on every run so that the patterns cannot go blind.
 """
 import ast
@@ -73,6 +76,76 @@ def unbound_globals(module_src, filename='<module>'):
     if star:
         return []
     walk(top)
+    return out
+
+
+SAFE_DECORATORS = ('inlineCallbacks', 'defer.inlineCallbacks', 'staticmethod', 'classmethod')
+
+
+def arity_fault(defn, call, drop_first):
+    """why `call` cannot be bound to `defn`'s parameters (None: it can, or it cannot be told)"""
+    if any(isinstance(x, ast.Starred) for x in call.args) or any(k.arg is None for k in call.keywords):
+        return None
+    a = defn.args
+    pos = [x.arg for x in getattr(a, 'posonlyargs', []) + a.args]
+    if drop_first and pos:
+        pos = pos[1:]
+    ndef = len(a.defaults)
+    required = pos[:len(pos) - ndef] if ndef <= len(pos) else []
+    n = len(call.args)
+    kws = [k.arg for k in call.keywords]
+    if n > len(pos) and a.vararg is None:
+        return 'takes at most %d positional arguments, %d given' % (len(pos), n)
+    kwonly = [x.arg for x in a.kwonlyargs]
+    for k in kws:
+        if k not in pos and k not in kwonly and a.kwarg is None:
+            return 'has no parameter %r' % k
+        if k in pos[:n]:
+            return 'gets %r both by position and by keyword' % k
+    posonly = [x.arg for x in getattr(a, 'posonlyargs', [])]
+    missing = [r for i, r in enumerate(required) if i >= n and (r not in kws or r in posonly)]
+    if missing:
+        return 'is called without its required %s' % ', '.join(missing)
+    missing_kw = [x.arg for x, d in zip(a.kwonlyargs, a.kw_defaults) if d is None and x.arg not in kws]
+    if missing_kw:
+        return 'is called without its required keyword-only %s' % ', '.join(missing_kw)
+    return None
+
+
+def call_arity_faults(idx, unit):
+    """[(call node, message)] for resolved package calls in `unit` that cannot bind"""
+    from .common import resolve_refs
+    out = []
+    calls = dict((id(c.func), c) for c in walk_unit(unit) if isinstance(c, ast.Call))
+    shadow = set()
+    q = unit
+    while q is not None:
+        if isinstance(q.node, (ast.FunctionDef, ast.AsyncFunctionDef, ast.Lambda)):
+            shadow |= _params(q.node)
+            shadow |= set(x.id for x in _own_nodes(q.node) if isinstance(x, ast.Name) and isinstance(x.ctx, ast.Store))
+        q = q.parent
+    for tgt, a, kind in resolve_refs(idx, unit):
+        if kind != 'call' or id(a) not in calls or not isinstance(tgt.node, (ast.FunctionDef, ast.AsyncFunctionDef)):
+            continue
+        decs = [dotted(d) or dotted(getattr(d, 'func', None)) for d in tgt.node.decorator_list]
+        if any(d not in SAFE_DECORATORS for d in decs):
+            continue
+        drop = False
+        if isinstance(a, ast.Attribute) and isinstance(a.value, ast.Name) and a.value.id == 'self':
+            ci = unit.owner_cls
+            if ci is None or any(idx.find_method(sc, a.attr) is not tgt for sc in idx.subclasses(ci)):
+                continue
+            drop = 'staticmethod' not in decs
+        elif isinstance(a, ast.Name):
+            if a.id in shadow and not any(c.name == a.id for c in unit.children):
+                continue
+            if tgt.cls is not None and tgt.parent is None:
+                continue
+        elif tgt.cls is not None:
+            continue
+        why = arity_fault(tgt.node, calls[id(a)], drop)
+        if why:
+            out.append((calls[id(a)], '%s %s' % (tgt.short, why)))
     return out
 
 
@@ -305,6 +378,10 @@ def check(run, rid='R-X'):
             for at, nm in never_defined_locals(sub):
                 run.ob(rid, sub, at, 'no definite-fault construct (X7)', False, slot='X7@%s:%s' % (sub.short, nm),
                        message='%s: reads the local %s at a point no assignment of it reaches: UnboundLocalError whenever this line runs' % (sub.short, nm))
+        for sub in [u] + _descendants(u):
+            for at, msg in call_arity_faults(run.idx, sub):
+                run.ob(rid, sub, at, 'no definite-fault construct (X8)', False, slot='X8@%s:%s' % (sub.short, src(at.func)[:30]),
+                       message='%s: %s: TypeError whenever this call runs' % (sub.short, msg))
         for node, code, msg in definite_faults(u.node):
             run.ob(rid, u, node, 'no definite-fault construct (%s)' % code, False, slot='%s@%s' % (code, u.short), message='%s: %s' % (u.short, msg))
         run.ob(rid, u, u.node, 'scanned for definite-fault constructs', True)
@@ -315,6 +392,10 @@ def check(run, rid='R-X'):
         run.undecide(rid, '-', 'positive example no longer matched: %s' % codes)
     if 'zork_undefined' not in [nm for _, nm in unbound_globals(POSITIVE) or []]:
         run.undecide(rid, '-', 'positive example for X6 no longer matched')
+    pa = ast.parse('def g(a, b=1, *, c):\n    pass\ng(1, 2, 3, c=0)\ng(1)\ng(1, c=2)\ng(b=2, c=1)\ng(1, d=2, c=1)\n').body
+    got = [arity_fault(pa[0], st.value, False) is not None for st in pa[1:]]
+    if got != [True, True, False, True, True]:
+        run.undecide(rid, '-', 'positive example for X8 no longer matched: %s' % got)
     punit = _PosUnit(pos)
     if [nm for _, nm in never_defined_locals(punit)] != ['late']:
         run.undecide(rid, '-', 'positive example for X7 no longer matched')
